@@ -181,6 +181,8 @@ def run(ck):
               [G.gen_history(rnd, "chaos") for _ in range(350 * scale)])
     run_batch("coordinator answers that re-address a known node (same node id, new host/port; with and without a live connection) vs Model.ClientRun.run_ops",
               [G.gen_coord_readdress_history(rnd) for _ in range(200 * scale)])
+    run_batch("produce with acks=0 whose broker send fails, then the next produce vs Model.ClientRun.run_ops",
+              [G.gen_acks0_history(rnd) for _ in range(100 * scale)])
     hosts_batch(ck, rnd, 400 * scale)
     O.batch(ck, rnd, 250 * scale, PID)       # overlapping calls, arbitrary interleavings: monitors only (see client_overlap.py)
     if ck.tier == "thorough":
